@@ -160,6 +160,32 @@ def run(ctx):
     if len(snaps) != 1:
         obs.append({"kind": "fresh-snapshots", "got": [], "solo": [], "exact": [], "snap0": sorted(snaps)[0], "snap1": sorted(snaps)[-1],
                     "args0": "x", "args1": "x", "_what": "module state differs between fresh processes"})
+    # ---- calls that fail by TIMEOUT at every point of the early phases, then the same call again -------------
+    # (a memo filled by a call that was cut short must not leak into later calls)
+    nto = 0
+    # this stage runs before all others: nothing in this process has parsed these texts yet
+    tpool = [c for c in pool if c["text"] and len(c["text"]) < 40][:6 if ctx.quick else 20]
+    for c in tpool:
+        s0 = solo.snapshot(qa)
+        # (no clean call first: the cut-short call must be the FIRST one on this text in the process)
+        got, sl, ex = [], [], []
+        pts = list(range(1, 61))
+        for T in pts:
+            vc = qa.VirtualClock()
+            with qa.virtual_clock(vc):
+                try:
+                    qa.CTP.ctparse(c["text"], datetime(*c["ts"]), timeout=T, scorer=qa.DummyScorer(), max_stack_depth=c.get("depth", 10))
+                except Exception:  # noqa: BLE001
+                    pass
+            # first only cut-short calls (a clean call in between would repair a half-filled memo), one clean call at
+            # the end; on every second text clean calls are interleaved as well
+            if T == pts[-1] or (tpool.index(c) % 2 == 1 and (T % 5 == 0 or T <= 12)):
+                got.append(solo.run_case(qa, c))
+                sl.append(ref[pool.index(c)])
+                ex.append(1)
+        obs.append({"kind": "timeout-history", "got": got, "solo": sl, "exact": ex, "snap0": s0, "snap1": solo.snapshot(qa),
+                    "args0": "a", "args1": "a", "_what": {"text": c["text"], "expiry_points": len(pts)}})
+        nto += 1
     # ---- schedules of suspended streams (exhaustive, from TLC) ---------------------------------------
     gen_idx = [i for i, c in enumerate(pool) if c["kind"] == "gen" and 1 <= len(ref[i]) <= 4]
     combos = []
@@ -264,7 +290,8 @@ def run(ctx):
     ctx.evaluations += len(obs)
     for i, o in enumerate(obs):
         ctx.nontrivial.add((o["kind"], json.dumps(o["_what"], sort_keys=True, default=str) if "_what" in o else i))
-    ctx.stage_counts.update({"schedules": nsched, "histories": nh, "thread_runs": nt, "hash_seeds": ns, "pool": len(pool)})
+    ctx.stage_counts.update({"schedules": nsched, "histories": nh, "thread_runs": nt, "hash_seeds": ns, "pool": len(pool),
+                             "timeout_histories": nto})
     ctx.sample({"kind": "schedule", "example": next((o["_what"] for o in obs if o["kind"] == "schedule"), None)})
     ctx.sample({"kind": "history", "example": next((o["_what"] for o in obs if o["kind"] == "history"), None)})
     ctx.exhaustive = False
